@@ -20,7 +20,7 @@ fn check_tokens(rows: &[String], log: &[String], cols: usize, ctx: &str) -> Resu
         let want = rows_of(std::slice::from_ref(line), cols);
         // exactly once: positions at which the line's wrapped rows occur
         let count = if want.len() <= rows.len() { (0..=rows.len() - want.len()).filter(|i| rows[*i..*i + want.len()] == want[..]).count() } else { 0 };
-        let found = (at..=rows.len().saturating_sub(want.len())).find(|i| rows[*i..*i + want.len()] == want[..]);
+        let found = if want.len() <= rows.len() { (at..=rows.len() - want.len()).find(|i| rows[*i..*i + want.len()] == want[..]) } else { None };
         match found {
             Some(i) => at = i + want.len(),
             None => {
